@@ -68,7 +68,11 @@ def classify_fault(message):
                     "Cannot specify", "object cannot be interpreted as an integer", "doesn't define __",
                     "float modulo", "modulo by zero", "argument must be a string or a",
                     "Invalid conversion", "expected '}'", "Single '}'", "Single '{'", "unmatched",
-                    "too many", "positional argument", "attribute name"]
+                    "too many", "positional argument", "attribute name",
+                    # a string as the left operand of `%` is Python's string formatting
+                    "not all arguments converted during string formatting", "not enough arguments for format string",
+                    "format requires a mapping", "unsupported format character", "incomplete format",
+                    "real number is required", "a number is required"]
     for k in data_markers:
         if k in m:
             return 'data'
